@@ -9,6 +9,7 @@ import Compress.Proofs.XFlateReader
 import Compress.XFlate.ReaderSpec
 import Compress.Proofs.BzImplCut
 import Compress.Proofs.WrapInit
+import Compress.Proofs.WrapLift
 
 namespace Compress.Props.C10
 open Compress Compress.Flate Compress.Prefix Compress.Bzip2 Compress.Proofs.Bzip2Stages Compress.Proofs.FlateRefine
@@ -100,6 +101,19 @@ open Compress.Proofs.Wrap Compress.Prefix.Wrap Compress.Prefix in
 theorem C10_wrapper_simulation_starts (src : Src) (adv : List Nat) :
     WSim (Wrapper.fresh src) { data := Src.rest src, bufAdv := adv } :=
   wsim_fresh src adv
+
+open Compress.Proofs.Wrap Compress.Prefix.Wrap Compress.Prefix in
+/-- **Source shape, concretely.**  `C10_source_shape` assumed the wrappers honour the contract; this
+    closes the assumption for the three wrapped kinds: for every *bytes.Reader, *strings.Reader or
+    *bytes.Buffer (at any position), any earlier state of the Reader, both bit orders and every script
+    of field widths up to 56 bits, `ReadBits` on the Reader model running over the CONCRETE wrapper
+    (cache and all) returns exactly the successive fields of the bit stream of the unread bytes, the
+    first field that does not fit failing with io.ErrUnexpectedEOF.  Proved by lifting the wrapper
+    simulation through Flush/PullBits/ReadBits and instantiating `reader_refines` with the
+    `Buffered()` answers the wrapper really gives. -/
+theorem C10_wrapper_source_shape (old : Option WR) (src : Src) (big : Bool) (ns : List Nat) (hn : ∀ n ∈ ns, n ≤ 56) :
+    wreadScript (WR.init old src big) ns = specReadScript (streamBits big (Src.rest src)) ns :=
+  wrapper_reader_refines old src big ns hn
 
 -- non-vacuity: a wrapper whose cache holds the whole source, then a Seek backwards by the owner,
 -- a direct Read past the cached window and a Peek: a legal instance of the quantified sequence
